@@ -96,7 +96,20 @@ def native_replay(path, optimize):
     return (r.returncode == 1 and isinstance(info, dict) and info.get('reproduced') is True), info
 
 
+_BOUNDED_CACHE = {}
+
+
 def bounded_run(spec, optimize, seed, n):
+    """one bounded companion run per (unit, mode): several failing obligations of one unit share it"""
+    key = (spec, bool(optimize), seed)
+    if key in _BOUNDED_CACHE and _BOUNDED_CACHE[key][0] >= n:
+        return _BOUNDED_CACHE[key][1]
+    r = _bounded_run(spec, optimize, seed, n)
+    _BOUNDED_CACHE[key] = (n, r)
+    return r
+
+
+def _bounded_run(spec, optimize, seed, n):
     cmd = [NATIVE_PY] + (["-O"] if optimize else []) + ["-m", "pyvc.replay", "--bounded", spec, str(seed), str(n)]
     try:
         r = subprocess.run(cmd, capture_output=True, text=True, timeout=1200, env=native_env(), cwd=VERIF)
